@@ -54,6 +54,7 @@ class _TextParser(HTMLParser):
   def __init__(self, paragraph: model.P, line_number: int) -> None:
     self.line_num: int = line_number
     self.parent: model.ContentElement = paragraph
+    self.open_tags: typing.List[str] = []
     super().__init__()
 
   def handle_starttag(self, tag, attrs):
@@ -61,6 +62,7 @@ class _TextParser(HTMLParser):
     span = model.Span(self.parent.get_doc())
     self.parent.push_child(span)
     self.parent = span
+    self.open_tags.append(tag)
 
     if tag.lower() in ("b", "bold"):
       span.set_style(styles.StyleProperties.FontWeight, styles.FontWeightType.bold)
@@ -88,6 +90,11 @@ class _TextParser(HTMLParser):
       return
 
   def handle_endtag(self, tag):
+    if len(self.open_tags) == 0 or self.open_tags[-1] != tag:
+      LOGGER.warning("Ignoring unmatched end tag %s at line %s", tag, self.line_num)
+      return
+
+    self.open_tags.pop()
     self.parent = self.parent.parent()
 
   def handle_data(self, data):
